@@ -79,3 +79,21 @@ Print Assumptions C15_zero_is_plain_window.
 
 Example C15_nonvacuous : valid 0 1 [1/4; 1/2; 1] /\ Forall (fun x => 1/8 <= x) [1/4; 1/4; 1/2].
 Proof. split; [valid_tac | repeat constructor; lra]. Qed.
+
+(* ---- executed instance (Q, extracted to OCaml and run against /repo) = the real-number functions
+   the theorems above are about: kernel-checked parametricity bridge (Bridge.v).  qL = map Q2R etc. ---- *)
+From Coq Require Import QArith Qreals.
+From PS Require Import Bridge.
+Local Close Scope Q_scope.
+Theorem C15_exec_isi_lengths_transfer : forall (s : list Q) (ts te : Q), qL (isi_lengths QOps s ts te) = isi_lengths ROps (qL s) (Q2R ts) (Q2R te).
+Proof. exact isi_lengths_transfer. Qed.
+Print Assumptions C15_exec_isi_lengths_transfer.
+Theorem C15_exec_default_thresh_sq_transfer : forall l : list train, Q2R (default_thresh_sq QOps l) = default_thresh_sq ROps (map qTrain l).
+Proof. exact default_thresh_sq_transfer. Qed.
+Print Assumptions C15_exec_default_thresh_sq_transfer.
+Theorem C15_exec_isi_lengths_spec_transfer : forall (s : list Q) (ts te : Q), qL (isi_lengths_spec QOps s ts te) = isi_lengths_spec ROps (qL s) (Q2R ts) (Q2R te).
+Proof. exact isi_lengths_spec_transfer. Qed.
+Print Assumptions C15_exec_isi_lengths_spec_transfer.
+Theorem C15_exec_get_tau_transfer : forall (c1 c2 : option ctx) (lim mrts : Q), Q2R (get_tau QOps c1 c2 lim mrts) = get_tau ROps (qCtx c1) (qCtx c2) (Q2R lim) (Q2R mrts).
+Proof. exact get_tau_transfer. Qed.
+Print Assumptions C15_exec_get_tau_transfer.
